@@ -13,6 +13,8 @@ import api_tie as T
 
 
 def ev_text(e):
+    if e[0] == "data":
+        return "D"
     k = e[0]
     return {"send": "S:%s", "ack": "A:%s", "tick": "T:%s", "cancelsend": "C:%s"}.get(k, "") % e[1] if len(e) > 1 else {"data": "D", "uclose": "X", "rflag": "T:0"}[k]
 
@@ -115,7 +117,7 @@ def run(chk):
                 elif x < 0.84:
                     e = ("cancelsend", rng.choice(tags))
                 elif x < 0.92:
-                    e = ("data",)
+                    e = ("data",) if rng.random() < 0.5 else ("data", rng.randrange(4))
                 elif x < 0.95:
                     e = ("rflag",)
                 else:
@@ -127,6 +129,9 @@ def run(chk):
         evs.append(("tick", 1000 * (len(tags) + 1)))
         hist.append(evs)
     # the reset mark set (as ZBOSS.reset() does, and it stays set when the radio does not disconnect): still stop-and-wait
+    # unrelated data frames whose (meaningless) ACK-number bits happen to equal the number in flight: not an acknowledgement
+    for q in range(4):
+        hist.append([("send", "1"), ("ack", 0), ("send", "2"), ("send", "3"), ("data", 1), ("data", q), ("tick", 300), ("ack", 1), ("data", 2), ("tick", 3000)])
     hist.append([("rflag",), ("send", "1"), ("send", "2"), ("send", "3"), ("tick", 300), ("tick", 1000), ("tick", 1000), ("tick", 1000)])
     hist.append([("send", "1"), ("rflag",), ("send", "2"), ("ack", 0), ("send", "3"), ("tick", 500), ("ack", 1), ("tick", 3000)])
     tie_bad = mon_bad = None
